@@ -16,6 +16,7 @@ import (
 	"strings"
 
 	"github.com/creachadair/mds/mapset"
+	"verif/elem"
 	"verif/vk"
 )
 
@@ -42,10 +43,14 @@ type Op struct {
 
 // Case is a history.  Init holds the initial value of variables 0..len-1 as
 // element lists; JSON null means the nil set, [] the empty non-nil set.
-// Variables without an initial value start nil.
+// Variables without an initial value start nil.  Elem names the element type
+// the sets are instantiated with ("" = int, the ints of the case are the
+// members themselves; otherwise see kinds.go: the ints of the case are model
+// values that a dom turns into members).
 type Case struct {
 	Init [][]int `json:"init"`
 	Ops  []Op    `json:"ops"`
+	Elem string  `json:"elem,omitempty"`
 }
 
 // rset is the reference: a strictly ascending slice.
@@ -106,41 +111,57 @@ func (r rset) String() string {
 	return sb.String()
 }
 
-// show renders a real set for messages: nil, or its sorted elements.
-func show(s mapset.Set[int]) string {
+// show renders a real set for messages: nil, or its sorted elements (as
+// model values).
+func (r *setRun[T]) show(s mapset.Set[T]) string {
 	if s == nil {
 		return "nil"
 	}
 	var xs []int
-	for x := range s {
-		xs = append(xs, x)
+	stray := 0
+	for e := range s {
+		if x, ok := r.d.val(e); ok {
+			xs = append(xs, x)
+		} else {
+			stray++
+		}
 	}
-	return norm(xs).String()
+	out := norm(xs).String()
+	if stray > 0 {
+		out += fmt.Sprintf(" plus %d members the harness never made", stray)
+	}
+	return out
 }
 
-type setRun struct {
+type setRun[T comparable] struct {
 	c    Case
-	vars [NV]mapset.Set[int]
+	d    *dom[T]
+	vars [NV]mapset.Set[T]
 	ref  [NV]rset
 	step int
 
 	// measurements for NT and the class histogram
 	binDiffNonEmpty, binEmpty, binNil, recvLarger, recvSmaller int
 	nilRecvMut, selfOperand, popNonEmpty, popEmpty, probes     int
-	ctor, emptyIntersectArgs                                   int
+	ctor, emptyIntersectArgs, nanCleared                       int
 }
 
-func (r *setRun) errf(format string, args ...any) string {
+func (r *setRun[T]) errf(format string, args ...any) string {
 	where := "init"
 	if r.step >= len(r.c.Ops) {
 		where = "final check"
 	} else if r.step >= 0 {
 		where = fmt.Sprintf("op#%d %s", r.step, r.opString(r.c.Ops[r.step]))
 	}
-	return fmt.Sprintf("%s: %s", where, fmt.Sprintf(format, args...))
+	msg := fmt.Sprintf("%s: %s", where, fmt.Sprintf(format, args...))
+	if r.c.Elem != "" {
+		// the first line stays self-contained; the second says what the ints stand for
+		msg = fmt.Sprintf("elem=%s %s\n%s", r.c.Elem, msg, r.d.legend(r.c))
+	}
+	return msg
 }
 
-func (r *setRun) opString(op Op) string {
+func (r *setRun[T]) opString(op Op) string {
 	return fmt.Sprintf("{k:%s d:%d s:%v a:%v b:%d}", op.K, op.D, op.S, op.A, op.B)
 }
 
@@ -153,56 +174,57 @@ func vi(i int) int {
 
 // mkSet builds a real set from an element list WITHOUT going through the
 // package under test.
-func mkSet(xs []int) mapset.Set[int] {
+func (r *setRun[T]) mkSet(xs []int) mapset.Set[T] {
 	if xs == nil {
 		return nil
 	}
-	m := make(map[int]struct{}, len(xs))
+	m := make(map[T]struct{}, len(xs))
 	for _, x := range xs {
-		m[x] = struct{}{}
+		m[r.d.of(x)] = struct{}{}
 	}
-	return mapset.Set[int](m)
+	return mapset.Set[T](m)
 }
 
 // checkVar compares one variable with its reference through the public API.
-func (r *setRun) checkVar(i int) string {
+func (r *setRun[T]) checkVar(i int) string {
 	s, want := r.vars[i], r.ref[i]
 	if got := s.Len(); got != len(want) {
-		return r.errf("var%d: Len = %d, reference %v has %d (set is %s)", i, got, want, len(want), show(s))
+		return r.errf("var%d: Len = %d, reference %v has %d (set is %s)", i, got, want, len(want), r.show(s))
 	}
 	if got := s.IsEmpty(); got != (len(want) == 0) {
 		return r.errf("var%d: IsEmpty = %v, reference is %v", i, got, want)
 	}
 	for x := -1; x <= hiElem; x++ {
-		if got := s.Has(x); got != want.has(x) {
+		if got := s.Has(r.d.of(x)); got != want.has(x) {
 			return r.errf("var%d: Has(%d) = %v, reference is %v", i, x, got, want)
 		}
 	}
-	if s.Has(probe) {
+	if s.Has(r.d.of(probe)) {
 		return r.errf("var%d: holds the probe element %d that was never added to it", i, probe)
 	}
 	sl := s.Slice()
-	got := append([]int(nil), sl...)
+	got, stray := r.d.vals(sl)
 	sort.Ints(got)
-	if !slices.Equal(got, []int(want)) {
-		return r.errf("var%d: Slice = %v, want each member of %v exactly once", i, sl, want)
+	if stray > 0 || !slices.Equal(got, []int(want)) {
+		return r.errf("var%d: Slice = %s, want each member of %v exactly once", i, r.d.list(sl), want)
 	}
 	// Append: the prefix is preserved, then each member exactly once.
-	pre := make([]int, 2, 2+(r.step+1+i)%3*len(want)) // spare capacity 0, 1x or 2x Len
-	pre[0], pre[1] = -7, -8
+	p7, p8 := r.d.of(-7), r.d.of(-8)
+	pre := make([]T, 2, 2+(r.step+1+i)%3*len(want)) // spare capacity 0, 1x or 2x Len
+	pre[0], pre[1] = p7, p8
 	ap := s.Append(pre)
-	if len(ap) < 2 || ap[0] != -7 || ap[1] != -8 || pre[0] != -7 || pre[1] != -8 {
-		return r.errf("var%d: Append([-7 -8]) = %v, prefix not preserved", i, ap)
+	if len(ap) < 2 || ap[0] != p7 || ap[1] != p8 || pre[0] != p7 || pre[1] != p8 {
+		return r.errf("var%d: Append([-7 -8]) = %s, prefix not preserved", i, r.d.list(ap))
 	}
-	got = append([]int(nil), ap[2:]...)
+	got, stray = r.d.vals(ap[2:])
 	sort.Ints(got)
-	if !slices.Equal(got, []int(want)) {
-		return r.errf("var%d: Append([-7 -8]) = %v, want the prefix then each member of %v exactly once", i, ap, want)
+	if stray > 0 || !slices.Equal(got, []int(want)) {
+		return r.errf("var%d: Append([-7 -8]) = %s, want the prefix then each member of %v exactly once", i, r.d.list(ap), want)
 	}
 	return ""
 }
 
-func (r *setRun) checkAll() string {
+func (r *setRun[T]) checkAll() string {
 	for i := 0; i < NV; i++ {
 		if msg := r.checkVar(i); msg != "" {
 			return msg
@@ -215,32 +237,33 @@ func (r *setRun) checkAll() string {
 // any other variable: an element written directly into one map must not
 // appear in any other, in both directions.  The writes use the built-in map
 // operations (documented as allowed), not the code under test.
-func (r *setRun) probeAlias(d int, what string) string {
+func (r *setRun[T]) probeAlias(d int, what string) string {
 	r.probes++
+	pe := r.d.of(probe) // the probe as a member
 	if r.vars[d] != nil {
-		r.vars[d][probe] = struct{}{}
+		r.vars[d][pe] = struct{}{}
 		for j := 0; j < NV; j++ {
 			if j == d {
 				continue
 			}
-			if _, ok := r.vars[j][probe]; ok {
-				delete(r.vars[d], probe)
+			if _, ok := r.vars[j][pe]; ok {
+				delete(r.vars[d], pe)
 				return r.errf("%s: result aliases var%d: adding %d to the result made it appear in var%d", what, j, probe, j)
 			}
 			if len(r.vars[j]) != len(r.ref[j]) {
-				delete(r.vars[d], probe)
+				delete(r.vars[d], pe)
 				return r.errf("%s: mutating the result changed the size of var%d", what, j)
 			}
 		}
-		delete(r.vars[d], probe)
+		delete(r.vars[d], pe)
 	}
 	for j := 0; j < NV; j++ {
 		if j == d || r.vars[j] == nil {
 			continue
 		}
-		r.vars[j][probe] = struct{}{}
-		_, ok := r.vars[d][probe]
-		delete(r.vars[j], probe)
+		r.vars[j][pe] = struct{}{}
+		_, ok := r.vars[d][pe]
+		delete(r.vars[j], pe)
 		if ok {
 			return r.errf("%s: result aliases var%d: adding %d to var%d made it appear in the result", what, j, probe, j)
 		}
@@ -249,7 +272,7 @@ func (r *setRun) probeAlias(d int, what string) string {
 }
 
 // noteBinary records the operand-size relation of a binary operation.
-func (r *setRun) noteBinary(recv, arg rset, recvNil, argNil bool) {
+func (r *setRun[T]) noteBinary(recv, arg rset, recvNil, argNil bool) {
 	switch {
 	case len(recv) == 0 || len(arg) == 0:
 		r.binEmpty++
@@ -266,7 +289,7 @@ func (r *setRun) noteBinary(recv, arg rset, recvNil, argNil bool) {
 	}
 }
 
-func (r *setRun) srcs(op Op) []int {
+func (r *setRun[T]) srcs(op Op) []int {
 	out := make([]int, len(op.S))
 	for i, s := range op.S {
 		out[i] = vi(s)
@@ -274,7 +297,7 @@ func (r *setRun) srcs(op Op) []int {
 	return out
 }
 
-func (r *setRun) apply(op Op) string {
+func (r *setRun[T]) apply(op Op) string {
 	d := vi(op.D)
 	ss := r.srcs(op)
 	s0 := d
@@ -288,7 +311,7 @@ func (r *setRun) apply(op Op) string {
 			r.nilRecvMut++
 		}
 		r.noteBinary(r.ref[d], items, r.vars[d] == nil, false)
-		ret := r.vars[d].Add(op.A...)
+		ret := r.vars[d].Add(r.d.ofs(op.A)...)
 		r.ref[d] = r.ref[d].union(items)
 		if r.vars[d] == nil {
 			return r.errf("Add(%v) left the receiver nil", op.A)
@@ -318,7 +341,7 @@ func (r *setRun) apply(op Op) string {
 		}
 	case "remove":
 		r.noteBinary(r.ref[d], items, r.vars[d] == nil, false)
-		ret := r.vars[d].Remove(op.A...)
+		ret := r.vars[d].Remove(r.d.ofs(op.A)...)
 		r.ref[d] = r.ref[d].minus(items)
 		if len(ret) != len(r.ref[d]) {
 			return r.errf("Remove(%v) returned a set of %d elements, receiver should now be %v", op.A, len(ret), r.ref[d])
@@ -335,21 +358,45 @@ func (r *setRun) apply(op Op) string {
 		}
 	case "pop":
 		before := r.ref[d]
-		x := r.vars[d].Pop()
+		e := r.vars[d].Pop()
+		x, made := r.d.val(e)
 		if len(before) == 0 {
 			r.popEmpty++
-			if x != 0 {
-				return r.errf("Pop on an empty set returned %d, want the zero value", x)
+			var zero T
+			if e != zero {
+				return r.errf("Pop on an empty set returned %s, want the zero value", r.d.one(e))
 			}
 		} else {
 			r.popNonEmpty++
-			if !before.has(x) {
-				return r.errf("Pop returned %d, which was not a member of %v", x, before)
+			if !made || !before.has(x) {
+				return r.errf("Pop returned %s, which was not a member of %v", r.d.one(e), before)
 			}
 			r.ref[d] = before.minus(rset{x})
 		}
 	case "clear":
 		r.vars[d].Clear()
+		r.ref[d] = nil
+	case "nanclear":
+		// Clear is documented to remove ALL elements, whatever they are.  For
+		// Set[float64] the variable first receives 1..3 NaN members through the
+		// built-in map operation (nothing is asked of the package while it
+		// holds them: a map can neither look up nor delete a NaN key); for the
+		// other kinds this is a plain Clear.
+		nan := 0
+		if r.d.nan != nil {
+			if r.vars[d] == nil {
+				r.vars[d] = make(mapset.Set[T])
+			}
+			nan = 1 + vi(op.B)%3
+			for i := 0; i < nan; i++ {
+				r.vars[d][r.d.nan()] = struct{}{}
+			}
+			r.nanCleared++
+		}
+		r.vars[d].Clear()
+		if n := r.vars[d].Len(); n != 0 {
+			return r.errf("Clear of a set holding %v and %d NaN members left Len = %d, want 0", r.ref[d], nan, n)
+		}
 		r.ref[d] = nil
 	case "setnil":
 		r.vars[d] = nil
@@ -358,7 +405,7 @@ func (r *setRun) apply(op Op) string {
 		r.ctor++
 		res := r.vars[s0].Clone()
 		if res == nil {
-			return r.errf("Clone of var%d=%s returned nil", s0, show(r.vars[s0]))
+			return r.errf("Clone of var%d=%s returned nil", s0, r.show(r.vars[s0]))
 		}
 		r.vars[d], r.ref[d] = res, append(rset(nil), r.ref[s0]...)
 		if msg := r.probeAlias(d, fmt.Sprintf("Clone(var%d)", s0)); msg != "" {
@@ -366,13 +413,13 @@ func (r *setRun) apply(op Op) string {
 		}
 	case "new":
 		r.ctor++
-		args := append([]int(nil), op.A...)
+		args := r.d.ofs(op.A)
 		res := mapset.New(args...)
 		if res == nil {
 			return r.errf("New(%v) returned nil", op.A)
 		}
-		if !slices.Equal(args, op.A) {
-			return r.errf("New(%v) modified its argument slice to %v", op.A, args)
+		if !slices.Equal(args, r.d.ofs(op.A)) {
+			return r.errf("New(%v) modified its argument slice to %s", op.A, r.d.list(args))
 		}
 		r.vars[d], r.ref[d] = res, items
 		if msg := r.probeAlias(d, "New"); msg != "" {
@@ -380,7 +427,7 @@ func (r *setRun) apply(op Op) string {
 		}
 	case "intersect":
 		r.ctor++
-		args := make([]mapset.Set[int], len(ss))
+		args := make([]mapset.Set[T], len(ss))
 		var want rset
 		for i, s := range ss {
 			args[i] = r.vars[s]
@@ -400,7 +447,11 @@ func (r *setRun) apply(op Op) string {
 			// only non-nil-ness is.  Adopt whatever came back.
 			r.emptyIntersectArgs++
 			var xs []int
-			for x := range res {
+			for e := range res {
+				x, made := r.d.val(e)
+				if !made {
+					return r.errf("Intersect of no sets returned a set holding %s", r.d.one(e))
+				}
 				xs = append(xs, x)
 			}
 			want = norm(xs)
@@ -412,7 +463,7 @@ func (r *setRun) apply(op Op) string {
 	case "keysv":
 		// the argument map IS the set variable's own map (U = struct{})
 		r.ctor++
-		res := mapset.Keys(map[int]struct{}(r.vars[s0]))
+		res := mapset.Keys(map[T]struct{}(r.vars[s0]))
 		if res == nil {
 			return r.errf("Keys(map of var%d) returned nil", s0)
 		}
@@ -423,46 +474,59 @@ func (r *setRun) apply(op Op) string {
 	case "keys", "values":
 		r.ctor++
 		// keys: A[i] -> i ; values: i -> A[i].  B==1 with empty A passes a nil map.
-		var m map[int]int
+		var mk map[T]int // the argument of Keys
+		var mv map[int]T // the argument of Values
 		if !(len(op.A) == 0 && op.B == 1) {
-			m = make(map[int]int)
+			mk, mv = make(map[T]int), make(map[int]T)
 		}
-		last := map[int]int{} // expected content of m, built the same way (argument, not reference set)
+		lastK, lastV := map[T]int{}, map[int]T{} // expected content of the argument, built the same way (argument, not reference set)
+		lastX := map[int]int{}                   // the same in model values, for the message
 		for i, a := range op.A {
-			if op.K == "keys" {
-				m[a], last[a] = i, i
+			if e := r.d.of(a); op.K == "keys" {
+				mk[e], lastK[e], lastX[a] = i, i, i
 			} else {
-				m[i], last[i] = a, a
+				mv[i], lastV[i], lastX[i] = e, e, a
 			}
 		}
-		var res mapset.Set[int]
+		var res mapset.Set[T]
+		var n int
+		var isNil bool
 		if op.K == "keys" {
-			res = mapset.Keys(m)
+			res, n, isNil = mapset.Keys(mk), len(mk), mk == nil
 		} else {
-			res = mapset.Values(m)
+			res, n, isNil = mapset.Values(mv), len(mv), mv == nil
 		}
 		if res == nil {
-			return r.errf("%s(map of %d entries, nil=%v) returned nil", op.K, len(m), m == nil)
+			return r.errf("%s(map of %d entries, nil=%v) returned nil", op.K, n, isNil)
 		}
 		r.vars[d], r.ref[d] = res, items
 		if msg := r.probeAlias(d, op.K); msg != "" {
 			return msg
 		}
-		res[probe] = struct{}{}
-		same := maps.Equal(m, last)
-		delete(res, probe)
+		pe := r.d.of(probe)
+		res[pe] = struct{}{}
+		same := maps.Equal(mk, lastK) && maps.Equal(mv, lastV)
+		delete(res, pe)
 		if !same {
-			return r.errf("%s: the argument map changed (now %v, was %v)", op.K, m, last)
+			now := map[int]int{}
+			for e, i := range mk {
+				x, _ := r.d.val(e)
+				now[x] = i
+			}
+			for i, e := range mv {
+				now[i], _ = r.d.val(e)
+			}
+			return r.errf("%s: the argument map changed (now %v, was %v)", op.K, now, lastX)
 		}
 	case "range":
 		r.ctor++
-		args := append([]int(nil), op.A...)
+		args := r.d.ofs(op.A)
 		seq := slices.Values(args)
 		if op.B%2 == 1 {
 			// a single-use sequence (package iter: "other sequences are single-use"),
 			// like one backed by a channel or a scanner: a second pass yields nothing
 			used := false
-			seq = func(yield func(int) bool) {
+			seq = func(yield func(T) bool) {
 				if used {
 					return
 				}
@@ -507,18 +571,18 @@ func (r *setRun) apply(op Op) string {
 			got, want = r.vars[d].Equals(r.vars[s0]), r.ref[d].equal(r.ref[s0])
 		}
 		if got != want {
-			return r.errf("%s.%s(%s) = %v, want %v", show(r.vars[d]), op.K, show(r.vars[s0]), got, want)
+			return r.errf("%s.%s(%s) = %v, want %v", r.show(r.vars[d]), op.K, r.show(r.vars[s0]), got, want)
 		}
 	case "hasall", "hasany":
 		r.noteBinary(r.ref[d], items, r.vars[d] == nil, false)
 		var got, want bool
 		if op.K == "hasall" {
-			got, want = r.vars[d].HasAll(op.A...), items.subsetOf(r.ref[d])
+			got, want = r.vars[d].HasAll(r.d.ofs(op.A)...), items.subsetOf(r.ref[d])
 		} else {
-			got, want = r.vars[d].HasAny(op.A...), len(items.inter(r.ref[d])) > 0
+			got, want = r.vars[d].HasAny(r.d.ofs(op.A)...), len(items.inter(r.ref[d])) > 0
 		}
 		if got != want {
-			return r.errf("%s.%s(%v) = %v, want %v", show(r.vars[d]), op.K, op.A, got, want)
+			return r.errf("%s.%s(%v) = %v, want %v", r.show(r.vars[d]), op.K, op.A, got, want)
 		}
 	case "check":
 		// no operation: only the per-step comparison of every variable
@@ -528,11 +592,36 @@ func (r *setRun) apply(op Op) string {
 	return ""
 }
 
-// runSet is the interpreter shared by both legs.
+// runSet is the interpreter shared by both legs; it instantiates the sets
+// with the element type the case names.
 func runSet(c Case, o *vk.Obs) string {
-	r := &setRun{c: c, step: -1}
+	switch c.Elem {
+	case "":
+		return runSetOf(c, o, plainDom())
+	case elem.Int:
+		return runSetOf(c, o, intDom())
+	case elem.Str:
+		return runSetOf(c, o, strDom())
+	case elem.I16:
+		return runSetOf(c, o, i16Dom())
+	case elem.Wide:
+		return runSetOf(c, o, wideDom())
+	case elem.Ptr:
+		elem.ResetPtr()
+		return runSetOf(c, o, ptrDom())
+	case elem.Any:
+		elem.ResetPtr()
+		return runSetOf(c, o, anyDom())
+	case elem.F64:
+		return runSetOf(c, o, f64Dom())
+	}
+	return fmt.Sprintf("VK-INFRA unknown element kind %q", c.Elem)
+}
+
+func runSetOf[T comparable](c Case, o *vk.Obs, d *dom[T]) string {
+	r := &setRun[T]{c: c, d: d, step: -1}
 	for i := 0; i < NV && i < len(c.Init); i++ {
-		r.vars[i] = mkSet(c.Init[i])
+		r.vars[i] = r.mkSet(c.Init[i])
 		r.ref[i] = norm(c.Init[i])
 	}
 	if msg := r.checkAll(); msg != "" {
@@ -571,6 +660,8 @@ func runSet(c Case, o *vk.Obs) string {
 	o.ClassIf(r.popNonEmpty > 0, "pop_nonempty")
 	o.ClassIf(r.popEmpty > 0, "pop_empty")
 	o.ClassIf(r.ctor > 0, "constructor_alias_probe")
+	o.ClassIf(r.nanCleared > 0, "clear_with_nan_members")
+	o.Class("elem=" + kindName(c.Elem))
 	for _, op := range c.Ops {
 		o.Class("op:" + op.K) // number of cases containing the operation
 	}
